@@ -372,6 +372,10 @@ pub(crate) fn finalize_insertion_ctx(insertion_ctx: &mut InsertionContext) {
     finalize_unassigned(insertion_ctx, UnassignmentInfo::Unknown);
 
     insertion_ctx.problem.goal.accept_solution_state(&mut insertion_ctx.solution);
+
+    // NOTE: a route can be added speculatively when insertion fails (see `notify_failure`) and stay
+    // without jobs: do not keep it as an empty tour is not a part of a valid solution
+    insertion_ctx.solution.remove_empty_routes();
 }
 
 pub(crate) fn apply_insertion_success(insertion_ctx: &mut InsertionContext, success: InsertionSuccess) {
